@@ -105,6 +105,8 @@ func runHistory(name string) []*abci.ResponseFinalizeBlock {
 		return oracleChurn()
 	case "gov-failures":
 		return govFailures()
+	case "tokens-pool-precompiles":
+		return tokensPoolPrecompiles()
 	}
 	panic("unknown history " + name)
 }
@@ -306,6 +308,131 @@ func govFailures() []*abci.ResponseFinalizeBlock {
 		if p.Status != want {
 			panic(fmt.Sprintf("gov-failures: proposal %d ended %s (%s), the history needs %s", id, p.Status, p.FailedReason, want))
 		}
+	}
+	return h.out
+}
+
+// tokensPoolPrecompiles: the parts of the state machine the other histories do not reach - token registration of every
+// kind, conversions in both directions and between denominations, switches and alias updates, the whole life of pool
+// entries through messages and precompile (send, fee increase, cancel, batch, confirms, execution claim), inbound and
+// outgoing bridge calls with their results, the staking precompile's share operations, and oracles going offline after
+// the signed window. Every operation runs inside a real block.
+func tokensPoolPrecompiles() []*abci.ResponseFinalizeBlock {
+	w := world.New(world.Config{Validators: 2, Actors: []string{"bank", "u1", "u2", "rel"}})
+	h := &hist{w: w, seqs: map[string]uint64{}}
+	u1, u2, rel := w.A("u1"), w.A("u2"), w.A("rel")
+	chain := "eth"
+	var os []scen.Oracle
+	var usdt, tok scen.Token
+	nonces := map[string]uint64{}
+	st := func(ctx sdk.Context, from world.Actor, m string, args ...interface{}) {
+		if r := w.CallABI(ctx, from, fxstakingtypes.GetAddress(), fxstakingtypes.GetABI(), nil, 3_000_000, m, args...); !r.Success() {
+			panic("staking precompile " + m + ": " + r.String())
+		}
+	}
+	cc := func(ctx sdk.Context, from world.Actor, value *big.Int, m string, args ...interface{}) {
+		if r := w.CallABI(ctx, from, cctypes.GetAddress(), cctypes.GetABI(), value, 3_000_000, m, args...); !r.Success() {
+			panic("crosschain precompile " + m + ": " + r.String())
+		}
+	}
+	observe := func(ctx sdk.Context, claim cctypes.ExternalClaim, execute bool) {
+		scen.Observe(w, ctx, chain, os, claim)
+		if execute {
+			cc(ctx, rel, nil, "executeClaim", chain, new(big.Int).SetUint64(claim.GetEventNonce()))
+		}
+	}
+	var target [32]byte
+	copy(target[:], chain)
+	// block 2: tokens of every kind, deposits, conversions, switches
+	h.block(func(ctx sdk.Context) {
+		os = scen.SetupOracles(w, ctx, chain, []string{"o1", "o2", "o3"}, []int64{10000, 10000, 10000})
+		osm := map[string][]scen.Oracle{chain: os}
+		scen.RegisterFX(w, ctx, osm, nonces, 1000)
+		usdt = scen.RegisterModuleToken(w, ctx, "USDT", osm, nonces, 1000)
+		tok = scen.RegisterExternalToken(w, ctx, u1, "TOK", 1000, osm, nonces, 1000)
+		scen.Fund(w, ctx, rel.Acc(), sdk.NewCoins(world.FXCoin(10)))
+		for _, u := range []world.Actor{u1, u2} {
+			nonces[chain]++
+			observe(ctx, scen.SendToFxClaim(chain, nonces[chain], 1001, usdt.Ext[chain], 100, scen.ExtAddr(chain, "depositor"), u.Acc(), "", ""), true)
+		}
+		w.MustDeliver(ctx, &erc20types.MsgConvertCoin{Coin: sdk.NewInt64Coin("usdt", 40), Receiver: u1.Hex().String(), Sender: u1.Bech()})
+		w.MustDeliver(ctx, &erc20types.MsgConvertERC20{ContractAddress: usdt.ERC20.String(), Amount: sdkmath.NewInt(5), Receiver: u2.Bech(), Sender: u1.Hex().String()})
+		w.MustDeliver(ctx, &erc20types.MsgConvertERC20{ContractAddress: tok.ERC20.String(), Amount: sdkmath.NewInt(50), Receiver: u1.Bech(), Sender: u1.Hex().String()})
+		w.MustDeliver(ctx, &erc20types.MsgToggleTokenConversion{Authority: world.GovAuthority(), Token: "usdt"})
+		w.MustDeliver(ctx, &erc20types.MsgToggleTokenConversion{Authority: world.GovAuthority(), Token: "usdt"})
+		w.MustDeliver(ctx, &erc20types.MsgUpdateDenomAlias{Authority: world.GovAuthority(), Denom: "usdt", Alias: "bsc" + scen.ExtAddr("bsc", "usdt-alias")})
+		w.MustDeliver(ctx, &erc20types.MsgUpdateDenomAlias{Authority: world.GovAuthority(), Denom: "usdt", Alias: "bsc" + scen.ExtAddr("bsc", "usdt-alias")})
+	}, world.BlockTime)
+	// block 3: pool entries through messages and through the precompile, fee increases, a cancel
+	h.cosmos(u2, &cctypes.MsgSendToExternal{ChainName: chain, Sender: u2.Bech(), Dest: scen.ExtAddr(chain, "u2-ext"), Amount: sdk.NewInt64Coin("usdt", 3), BridgeFee: sdk.NewInt64Coin("usdt", 1)},
+		&cctypes.MsgSendToExternal{ChainName: chain, Sender: u2.Bech(), Dest: scen.ExtAddr(chain, "u2-ext"), Amount: sdk.NewInt64Coin("usdt", 2), BridgeFee: sdk.NewInt64Coin("usdt", 2)})
+	h.block(func(ctx sdk.Context) {
+		if r := w.CallABI(ctx, u1, usdt.ERC20, contract.GetFIP20().ABI, nil, 300000, "approve", cctypes.GetAddress(), big.NewInt(20)); !r.Success() {
+			panic(r.String())
+		}
+		cc(ctx, u1, nil, "crossChain", usdt.ERC20, scen.ExtAddr(chain, "u1-ext"), big.NewInt(4), big.NewInt(1), target, "")
+		cc(ctx, u1, nil, "crossChain", usdt.ERC20, scen.ExtAddr(chain, "u1-ext"), big.NewInt(2), big.NewInt(3), target, "")
+		cc(ctx, u1, big.NewInt(3), "crossChain", common.Address{}, scen.ExtAddr(chain, "u1-ext"), big.NewInt(2), big.NewInt(1), target, "")
+	}, world.BlockTime)
+	h.cosmos(u2, &cctypes.MsgIncreaseBridgeFee{ChainName: chain, TransactionId: 4, Sender: u2.Bech(), AddBridgeFee: sdk.NewInt64Coin("usdt", 1)})
+	h.cosmos(u2, &cctypes.MsgCancelSendToExternal{ChainName: chain, TransactionId: 5, Sender: u2.Bech()})
+	h.block(func(ctx sdk.Context) {
+		// (the hook of a block runs before its transactions: u1's three precompile entries have ids 1-3, u2's messages 4-5)
+		cc(ctx, u1, big.NewInt(1), "increaseBridgeFee", chain, big.NewInt(3), common.Address{}, big.NewInt(1))
+		cc(ctx, u1, nil, "cancelSendToExternal", chain, big.NewInt(2))
+	}, world.BlockTime)
+	// block 5: a batch, confirmed by all three oracles in the next block, then observed as executed
+	h.cosmos(os[0].Bridger, &cctypes.MsgRequestBatch{ChainName: chain, Sender: os[0].Bridger.Bech(), Denom: usdt.Bridge[chain], MinimumFee: sdkmath.NewInt(1), FeeReceive: scen.ExtAddr(chain, "feercv"), BaseFee: sdkmath.ZeroInt()})
+	h.block(nil, world.BlockTime)
+	k := scen.Keeper(w, chain)
+	gid := k.GetGravityID(w.Committed())
+	batches := k.GetOutgoingTxBatches(w.Committed())
+	if len(batches) == 0 {
+		panic("tokens-pool-precompiles: no batch was built")
+	}
+	b := batches[0]
+	for _, o := range os {
+		h.cosmos(o.Bridger, &cctypes.MsgConfirmBatch{ChainName: chain, Nonce: b.BatchNonce, TokenContract: b.TokenContract, BridgerAddress: o.Bridger.Bech(), ExternalAddress: o.ExtAddr,
+			Signature: scen.Sign(chain, o.ExtKey, scen.BatchCheckpoint(chain, gid, b))})
+	}
+	h.block(nil, world.BlockTime)
+	h.block(func(ctx sdk.Context) {
+		nonces[chain]++
+		observe(ctx, &cctypes.MsgSendToExternalClaim{EventNonce: nonces[chain], BlockHeight: 1002, BatchNonce: b.BatchNonce, TokenContract: b.TokenContract, ChainName: chain}, false)
+	}, world.BlockTime)
+	// block 8: bridge calls - inbound to an account, outgoing with two tokens, its failure result refunds it
+	h.block(func(ctx sdk.Context) {
+		nonces[chain]++
+		observe(ctx, &cctypes.MsgBridgeCallClaim{ChainName: chain, EventNonce: nonces[chain], BlockHeight: 1003, Sender: scen.ExtAddr(chain, "depositor"), Refund: u2.Hex().String(),
+			TokenContracts: []string{usdt.Ext[chain]}, Amounts: []sdkmath.Int{sdkmath.NewInt(5)}, To: u2.Hex().String(), Data: "", Value: sdkmath.ZeroInt(), Memo: "", TxOrigin: scen.ExtAddr(chain, "origin")}, true)
+		w.MustDeliver(ctx, &cctypes.MsgBridgeCall{ChainName: chain, Sender: u2.Bech(), Refund: u2.Bech(), Coins: sdk.NewCoins(sdk.NewInt64Coin("FX", 2), sdk.NewInt64Coin("usdt", 3)), To: scen.ExtAddr(chain, "callee"), Data: "02", Value: sdkmath.ZeroInt()})
+		nonces[chain]++
+		observe(ctx, &cctypes.MsgBridgeCallResultClaim{ChainName: chain, EventNonce: nonces[chain], BlockHeight: 1004, Nonce: 1, TxOrigin: scen.ExtAddr(chain, "origin"), Success: false, Cause: ""}, true)
+	}, world.BlockTime)
+	// block 9: share operations of the staking precompile
+	v0, v1 := w.Vals[0].ValAddr().String(), w.Vals[1].ValAddr().String()
+	h.block(func(ctx sdk.Context) {
+		st(ctx, u1, "delegateV2", v0, e18(100))
+		st(ctx, u2, "delegateV2", v0, e18(40))
+		st(ctx, u1, "approveShares", v0, u2.Hex(), e18(30))
+		st(ctx, u2, "transferFromShares", v0, u1.Hex(), u2.Hex(), e18(10))
+		st(ctx, u1, "transferShares", v0, u2.Hex(), e18(5))
+		st(ctx, u1, "redelegateV2", v0, v1, e18(20))
+		st(ctx, u2, "undelegateV2", v0, e18(15))
+	}, world.BlockTime)
+	h.block(func(ctx sdk.Context) {
+		st(ctx, u1, "withdraw", v0)
+		st(ctx, u2, "withdraw", v0)
+		scen.SetParams(w, ctx, chain, func(p *cctypes.Params) { p.SignedWindow = 2 })
+	}, world.BlockTime)
+	// the outgoing bridge call of block 8 was refunded; a second one stays unconfirmed past the signed window
+	h.cosmos(u2, &cctypes.MsgBridgeCall{ChainName: chain, Sender: u2.Bech(), Refund: u2.Bech(), Coins: sdk.NewCoins(sdk.NewInt64Coin("usdt", 1)), To: scen.ExtAddr(chain, "callee"), Data: "03", Value: sdkmath.ZeroInt()})
+	for i := 0; i < 5; i++ {
+		h.block(nil, world.BlockTime)
+	}
+	h.block(nil, 22*24*time.Hour)
+	if on := len(k.GetAllOracles(w.Committed(), true)); on == len(os) {
+		panic("tokens-pool-precompiles: no oracle went offline after the signed window")
 	}
 	return h.out
 }
